@@ -11,12 +11,13 @@ import (
 )
 
 type part struct {
-	kind byte // 'l' literal, 'v' "$x", 's' "$?"
+	kind byte // 'l' literal, 'v' "$x", 's' "$?", 'c' "$(list)"
 	s    string
+	l    []StmtN
 }
 type word []part
 
-func lit(s string) word { return word{{'l', s}} }
+func lit(s string) word { return word{{kind: 'l', s: s}} }
 
 func (w word) src() string {
 	var sb strings.Builder
@@ -28,6 +29,8 @@ func (w word) src() string {
 			sb.WriteString(`"$` + p.s + `"`)
 		case 's':
 			sb.WriteString(`"$?"`)
+		case 'c':
+			sb.WriteString(`"$( ` + ListSrc(p.l, "; ") + ` )"`) // the space keeps "$((" from reading as arithmetic
 		}
 	}
 	if sb.Len() == 0 {
@@ -48,6 +51,8 @@ func (w word) coq() string {
 			ps[i] = "WVar " + cstr(p.s)
 		case 's':
 			ps[i] = "WStatus"
+		case 'c':
+			ps[i] = "WSubst " + ListCoq(p.l)
 		}
 	}
 	return "[" + strings.Join(ps, ";") + "]"
@@ -127,6 +132,11 @@ type binN struct {
 	and  bool
 	x, y StmtN
 }
+
+type pipeN struct{ x, y StmtN }
+
+func (b pipeN) src() string { return b.x.Src() + " | " + b.y.Src() }
+func (b pipeN) coq() string { return fmt.Sprintf("CPipe (%s) (%s)", b.x.Coq(), b.y.Coq()) }
 
 func (b binN) src() string {
 	op := " || "
@@ -262,16 +272,17 @@ func (n funcN) coq() string { return fmt.Sprintf("CFunc %s (%s)", cstr(n.name), 
 // ---------------------------------------------------------------------------------
 
 type Gen struct {
-	R       *rand.Rand
-	loopVar int  // fresh guard variables for while loops
-	inFunc  int  // index of the function being defined (0 = none): it may call only higher ones
-	inLoop  int  // syntactic loop depth (only to bias break/continue)
-	budget  int  // remaining nodes
-	errexit bool // bias towards set -e programs
-	ign     int  // syntactically inside a context where errexit is ignored (condition, !, left of && ||)
-	inCond  int  // inside the condition list of an if/while/until (no break/continue there)
-	canRet  bool // syntactically inside a function body and not inside a subshell of it
-	Odd     bool // allow the constructs of the known classes (break 0, return outside function, ...)
+	R          *rand.Rand
+	loopVar    int  // fresh guard variables for while loops
+	inFunc     int  // index of the function being defined (0 = none): it may call only higher ones
+	inLoop     int  // syntactic loop depth (only to bias break/continue)
+	budget     int  // remaining nodes
+	errexit    bool // bias towards set -e programs
+	ign        int  // syntactically inside a context where errexit is ignored (condition, !, left of && ||)
+	substDepth int
+	inCond     int  // inside the condition list of an if/while/until (no break/continue there)
+	canRet     bool // syntactically inside a function body and not inside a subshell of it
+	Odd        bool // allow the constructs of the known classes (break 0, return outside function, ...)
 }
 
 var varNames = []string{"x", "y", "z", "v"}
@@ -280,18 +291,49 @@ var lits = []string{"a", "b", "c", "0", "1", "2", "3", "ab", "7", "10", "255", "
 
 func (g *Gen) pick(l []string) string { return l[g.R.IntN(len(l))] }
 
+// a command substitution: a short list run in a subshell (no break/return reaches out of it)
+func (g *Gen) subst() part {
+	g.substDepth++
+	save, saveR, saveC := g.inLoop, g.canRet, g.inCond
+	g.inLoop, g.canRet, g.inCond = 0, false, 0
+	var l []StmtN
+	switch g.R.IntN(4) {
+	case 0: // output ending in several newlines
+		l = []StmtN{{false, callN{[]word{lit("echo"), g.word()}}}, call("echo"), call("echo")}
+	case 1: // a status without output
+		l = []StmtN{g.atom()}
+	default:
+		l = g.list(1, 2)
+	}
+	for i := range l { // (a negated statement directly in a subshell: core_ANegatedInSubshell)
+		if !g.Odd {
+			l[i].neg = false
+		}
+	}
+	g.inLoop, g.canRet, g.inCond = save, saveR, saveC
+	g.substDepth--
+	return part{kind: 'c', l: l}
+}
+
 func (g *Gen) word() word {
+	if g.substDepth < 2 && g.budget > 0 && g.R.IntN(9) == 0 {
+		g.budget -= 2
+		if g.R.IntN(2) == 0 {
+			return word{g.subst()}
+		}
+		return word{{kind: 'l', s: g.pick(lits)}, g.subst()}
+	}
 	switch g.R.IntN(10) {
 	case 0, 1, 2, 3:
 		return lit(g.pick(lits))
 	case 4, 5, 6:
-		return word{{'v', g.pick(varNames)}}
+		return word{{kind: 'v', s: g.pick(varNames)}}
 	case 7:
-		return word{{'s', ""}}
+		return word{{kind: 's', s: ""}}
 	case 8:
-		return word{{'l', g.pick(lits)}, {'v', g.pick(varNames)}}
+		return word{{kind: 'l', s: g.pick(lits)}, {kind: 'v', s: g.pick(varNames)}}
 	default:
-		return word{{'v', g.pick(varNames)}, {'l', g.pick(lits)}}
+		return word{{kind: 'v', s: g.pick(varNames)}, {kind: 'l', s: g.pick(lits)}}
 	}
 }
 
@@ -350,7 +392,12 @@ func (g *Gen) simple() node {
 		if g.ign > 0 && !g.Odd {
 			return callN{[]word{lit("false")}}
 		}
-		if g.R.IntN(3) == 0 {
+		switch g.R.IntN(6) {
+		case 0:
+			return callN{[]word{lit("set"), lit("-o"), lit("pipefail")}}
+		case 1:
+			return callN{[]word{lit("set"), lit("+o"), lit("pipefail")}}
+		case 2, 3:
 			return callN{[]word{lit("set"), lit("+e")}}
 		}
 		return callN{[]word{lit("set"), lit("-e")}}
@@ -363,7 +410,7 @@ func (g *Gen) simple() node {
 	case k < 98:
 		return callN{[]word{lit("nosuch"), g.word()}}
 	default:
-		return callN{[]word{word{{'v', g.pick(varNames)}}}} // command name from a variable
+		return callN{[]word{word{{kind: 'v', s: g.pick(varNames)}}}} // command name from a variable
 	}
 }
 
@@ -420,6 +467,49 @@ func (g *Gen) operand(depth int, left bool) StmtN {
 	return s
 }
 
+// a stage of a pipeline: not negated, and an && || list or a function declaration goes into braces.
+// The last stage runs in the parent shell in the interpreter (known finding pipeline_last_stage_in_parent):
+// most of the time it is given no lasting effect.
+func (g *Gen) stage(depth int, first bool) StmtN {
+	var s StmtN
+	if !first && !g.Odd && g.R.IntN(4) != 0 {
+		switch g.R.IntN(4) {
+		case 0:
+			s = StmtN{false, callN{[]word{lit("echo"), g.word()}}}
+		case 1:
+			s = g.atom()
+		case 2:
+			save, saveR := g.inLoop, g.canRet
+			g.inLoop, g.canRet = 0, false
+			l := g.list(depth, 2)
+			for i := range l {
+				l[i].neg = false
+			}
+			s = StmtN{false, subN{l}}
+			g.inLoop, g.canRet = save, saveR
+		default:
+			s = StmtN{false, blockN{[]StmtN{g.atom(), {false, callN{[]word{lit("echo"), g.word()}}}}}}
+		}
+	} else {
+		save, saveR := g.inLoop, g.canRet
+		if first {
+			g.inLoop, g.canRet = 0, false
+		}
+		s = g.stmt(depth)
+		g.inLoop, g.canRet = save, saveR
+	}
+	s.neg = false
+	switch s.c.(type) {
+	case binN, funcN:
+		s = StmtN{false, blockN{[]StmtN{s}}}
+	case pipeN:
+		if !first {
+			s = StmtN{false, blockN{[]StmtN{s}}}
+		}
+	}
+	return s
+}
+
 func (g *Gen) cmd(depth int) node {
 	g.budget--
 	if depth <= 0 || g.budget <= 0 {
@@ -441,8 +531,10 @@ func (g *Gen) cmd(depth int) node {
 			}
 		}
 		return subN{l}
-	case k < 60:
+	case k < 56:
 		return binN{g.R.IntN(2) == 0, g.operand(depth-1, true), g.operand(depth-1, false)}
+	case k < 60:
+		return pipeN{g.stage(depth-1, true), g.stage(depth-1, false)}
 	case k < 70:
 		n := ifN{c: g.condList(depth-1, 2), t: g.list(depth-1, 2)}
 		cur := &n
@@ -472,12 +564,12 @@ func (g *Gen) cmd(depth int) node {
 			condTail = []StmtN{{false, callN{[]word{lit(goc)}}}}
 		}
 		limit := strings.Repeat("a", 1+g.R.IntN(3))
-		guard := StmtN{false, caseN{word{{'v', wv}}, []caseItem{
+		guard := StmtN{false, caseN{word{{kind: 'v', s: wv}}, []caseItem{
 			{[]patN{{w: lit(limit)}}, []StmtN{{false, callN{[]word{lit(stopc)}}}}},
 			{[]patN{{any: true}}, condTail},
 		}}}
 		g.inLoop++
-		body := append([]StmtN{{false, assignN{wv, word{{'v', wv}, {'l', "a"}}}}}, g.list(depth-1, 3)...)
+		body := append([]StmtN{{false, assignN{wv, word{{kind: 'v', s: wv}, {kind: 'l', s: "a"}}}}}, g.list(depth-1, 3)...)
 		g.inLoop--
 		loop := whileN{until, []StmtN{guard}, body}
 		return blockN{[]StmtN{{false, assignN{wv, word{}}}, {false, loop}}}
@@ -501,7 +593,9 @@ func (g *Gen) cmd(depth int) node {
 				if g.R.IntN(5) == 0 {
 					pats[j] = patN{any: true}
 				} else {
+					g.substDepth += 9 // no command substitution in patterns (outside the model)
 					pats[j] = patN{w: g.word()}
+					g.substDepth -= 9
 				}
 			}
 			var l []StmtN
@@ -551,7 +645,7 @@ func (g *Gen) atom() StmtN {
 	case 4:
 		return StmtN{true, callN{[]word{lit("true")}}}
 	default:
-		return StmtN{false, callN{[]word{lit("echo"), {{'s', ""}}}}}
+		return StmtN{false, callN{[]word{lit("echo"), {{kind: 's', s: ""}}}}}
 	}
 }
 
@@ -592,7 +686,7 @@ func (g *Gen) scenarioErrexitFunc() []StmtN {
 	if g.R.IntN(3) == 0 {
 		body = append(body, StmtN{false, binN{false, StmtN{false, binN{true, g.atom(), g.atom()}}, g.atom()}})
 	}
-	body = append(body, StmtN{false, callN{[]word{lit("echo"), lit("tail"), {{'s', ""}}}}})
+	body = append(body, StmtN{false, callN{[]word{lit("echo"), lit("tail"), {{kind: 's', s: ""}}}}})
 	if g.R.IntN(3) == 0 {
 		body = append(body, call("return", g.pick([]string{"0", "1", "3"})))
 	}
@@ -607,7 +701,7 @@ func (g *Gen) scenarioErrexitFunc() []StmtN {
 	default:
 		l = append(l, call(name))
 	}
-	l = append(l, StmtN{false, callN{[]word{lit("echo"), lit("end"), {{'s', ""}}}}})
+	l = append(l, StmtN{false, callN{[]word{lit("echo"), lit("end"), {{kind: 's', s: ""}}}}})
 	return l
 }
 
@@ -628,14 +722,14 @@ func (g *Gen) scenarioDeepLoops() []StmtN {
 			case 0:
 				return StmtN{false, blockN{[]StmtN{c, call("echo", "no")}}}
 			case 1:
-				return StmtN{false, ifN{c: []StmtN{StmtN{false, caseN{word{{'v', vars[d-1]}}, []caseItem{
+				return StmtN{false, ifN{c: []StmtN{StmtN{false, caseN{word{{kind: 'v', s: vars[d-1]}}, []caseItem{
 					{[]patN{{w: lit("a")}}, []StmtN{call("true")}}, {[]patN{{any: true}}, []StmtN{call("false")}}}}}},
 					t: []StmtN{c, call("echo", "no")}}}
 			default:
 				return c
 			}
 		}
-		mark := StmtN{false, callN{[]word{lit("echo"), lit(fmt.Sprintf("L%d", d)), {{'v', vars[d-1]}}}}}
+		mark := StmtN{false, callN{[]word{lit("echo"), lit(fmt.Sprintf("L%d", d)), {{kind: 'v', s: vars[d-1]}}}}}
 		var body []StmtN
 		if d == depth {
 			body = []StmtN{mark, ctl(), call("echo", "after")}
@@ -644,7 +738,7 @@ func (g *Gen) scenarioDeepLoops() []StmtN {
 			if d >= depth-1 && g.R.IntN(2) == 0 {
 				body = append(body, ctl())
 			}
-			body = append(body, StmtN{false, callN{[]word{lit("echo"), lit(fmt.Sprintf("E%d", d)), {{'s', ""}}}}})
+			body = append(body, StmtN{false, callN{[]word{lit("echo"), lit(fmt.Sprintf("E%d", d)), {{kind: 's', s: ""}}}}})
 		}
 		items := []word{lit("a"), lit("b")}
 		if g.R.IntN(3) == 0 {
@@ -653,7 +747,7 @@ func (g *Gen) scenarioDeepLoops() []StmtN {
 		return []StmtN{{false, forN{vars[d-1], items, body}}}
 	}
 	l := build(1)
-	l = append(l, StmtN{false, callN{[]word{lit("echo"), lit("end"), {{'s', ""}}}}})
+	l = append(l, StmtN{false, callN{[]word{lit("echo"), lit("end"), {{kind: 's', s: ""}}}}})
 	return l
 }
 
@@ -691,8 +785,8 @@ func (g *Gen) scenarioErrexitCompound() []StmtN {
 		case 4:
 			g.loopVar++
 			wv := fmt.Sprintf("w%d", g.loopVar)
-			guard := StmtN{false, caseN{word{{'v', wv}}, []caseItem{{[]patN{{w: lit("a")}}, []StmtN{call("false")}}, {[]patN{{any: true}}, []StmtN{call("true")}}}}}
-			body := append([]StmtN{{false, assignN{wv, word{{'v', wv}, {'l', "a"}}}}}, tail()...)
+			guard := StmtN{false, caseN{word{{kind: 'v', s: wv}}, []caseItem{{[]patN{{w: lit("a")}}, []StmtN{call("false")}}, {[]patN{{any: true}}, []StmtN{call("true")}}}}}
+			body := append([]StmtN{{false, assignN{wv, word{{kind: 'v', s: wv}, {kind: 'l', s: "a"}}}}}, tail()...)
 			return StmtN{false, blockN{[]StmtN{{false, assignN{wv, word{}}}, {false, whileN{false, []StmtN{guard}, body}}}}}
 		case 5:
 			return StmtN{false, blockN{tail()}}
@@ -706,7 +800,7 @@ func (g *Gen) scenarioErrexitCompound() []StmtN {
 	first := g.R.IntN(7)
 	for i := 0; i < n; i++ {
 		k := (first + i*3) % 7
-		body = append(body, mk(k), StmtN{false, callN{[]word{lit("echo"), lit(fmt.Sprintf("here%d", k)), {{'s', ""}}}}})
+		body = append(body, mk(k), StmtN{false, callN{[]word{lit("echo"), lit(fmt.Sprintf("here%d", k)), {{kind: 's', s: ""}}}}})
 	}
 	if g.R.IntN(3) == 0 {
 		name := funcNames[g.R.IntN(len(funcNames))]
@@ -714,7 +808,7 @@ func (g *Gen) scenarioErrexitCompound() []StmtN {
 	} else {
 		l = append(l, body...)
 	}
-	l = append(l, StmtN{false, callN{[]word{lit("echo"), lit("end"), {{'s', ""}}}}})
+	l = append(l, StmtN{false, callN{[]word{lit("echo"), lit("end"), {{kind: 's', s: ""}}}}})
 	return l
 }
 
